@@ -162,30 +162,76 @@ def run(prog: Program, rep, tier: str) -> None:
 
 
 def is_feasible_rule(prog: Program, rep, rule: str) -> None:
-    """is_feasible(tol) is true exactly when cons_violation <= tol and bound_violation <= tol: every truthy return is dominated by /
-    is the conjunction of both comparisons, every falsy return by the negation of one of them."""
+    """is_feasible(tol) is true exactly when cons_violation <= tol and bound_violation <= tol.  The method touches the two
+    violations only through comparisons with tol, so it is a boolean function of A = (cons_violation <= tol) and
+    B = (bound_violation <= tol); its truth table is computed from the return statements (path facts select the return taken)
+    and compared with A and B."""
     from ..symex import atoms_of
     it = prog.cls(IT)
     isf = it.methods["is_feasible"]
     ff = facts_for(isf)
     tol = [p for p in isf.params if p != "self"][0]
-    want = {("<=", "self.cons_violation", tol), ("<=", "self.bound_violation", tol)}
-    neg = {("<", tol, "self.cons_violation"), ("<", tol, "self.bound_violation")}
-    ok = True
+    A = ("<=", "self.cons_violation", tol)
+    B = ("<=", "self.bound_violation", tol)
+    NA = ("<", tol, "self.cons_violation")
+    NB = ("<", tol, "self.bound_violation")
+
+    class Unknown(Exception):
+        pass
+
+    def atom_val(at, asg):
+        if at == A:
+            return asg[0]
+        if at == NA:
+            return not asg[0]
+        if at == B:
+            return asg[1]
+        if at == NB:
+            return not asg[1]
+        op, l, r = at
+        if op in ("truthy", "falsy") and r is None:
+            try:
+                e = ast.parse(l, mode="eval").body
+            except SyntaxError:
+                raise Unknown(l)
+            v = ev(e, asg)
+            return v if op == "truthy" else not v
+        raise Unknown(str(at))
+
+    def ev(e, asg):
+        if isinstance(e, ast.Constant) and isinstance(e.value, bool):
+            return e.value
+        if isinstance(e, ast.UnaryOp) and isinstance(e.op, ast.Not):
+            return not ev(e.operand, asg)
+        if isinstance(e, ast.BoolOp):
+            vals = [ev(v, asg) for v in e.values]
+            return all(vals) if isinstance(e.op, ast.And) else any(vals)
+        if isinstance(e, ast.Call) and dotted(e.func) == "bool" and len(e.args) == 1:
+            return ev(e.args[0], asg)
+        if isinstance(e, ast.IfExp):
+            return ev(e.body, asg) if ev(e.test, asg) else ev(e.orelse, asg)
+        if isinstance(e, ast.Compare):
+            ats = atoms_of(e, True)
+            return all(atom_val(a, asg) for a in ats)
+        raise Unknown(U(e))
+
     rs = returns_of(isf)
-    if not rs:
-        ok = False
-    for r in rs:
-        v = ff.resolved(r, r.value)
-        facts = set(ff.at(r).facts)
-        if isinstance(v, ast.Constant) and v.value is False:
-            ok = ok and bool(facts & neg)
-        elif isinstance(v, ast.Constant) and v.value is True:
-            ok = ok and want <= facts
-        else:
-            at = set(atoms_of(v, True))
-            ok = ok and (at | (facts & want)) == want and not (facts - want - neg - {a for a in facts if a[0] == "truthy"})
-    rep.check(ok, rule, isf.qualname, short(rs[0]) if rs else "is_feasible", "is_feasible(tol) is cons_violation <= tol and bound_violation <= tol", isf.loc())
+    ok = bool(rs)
+    table = {}
+    try:
+        for asg in ((a, b) for a in (True, False) for b in (True, False)):
+            taken = [r for r in rs if all(atom_val(f, asg) for f in ff.at(r).facts)]
+            if len(taken) != 1:
+                raise AnalysisError(f"Iterate.is_feasible: {len(taken)} return statements are reachable for (cons ok, bounds ok) = {asg}")
+            vals = {ev(alt, asg) for alt in phi_alternatives(ff.resolved(taken[0], taken[0].value))}
+            if len(vals) != 1:
+                raise Unknown("ambiguous value")
+            table[asg] = vals.pop()
+            ok = ok and table[asg] == (asg[0] and asg[1])
+    except Unknown as e:
+        raise AnalysisError(f"Iterate.is_feasible is not a boolean function of the two comparisons with tol: `{e}`")
+    rep.check(ok, rule, isf.qualname, short(rs[0]) if rs else "is_feasible",
+              f"is_feasible(tol) is cons_violation <= tol and bound_violation <= tol (truth table over (cons ok, bounds ok): {sorted(table.items())})", isf.loc())
 
 
 def evaluations_not_corrupted(prog: Program, rep) -> None:
